@@ -23,6 +23,9 @@ use std::sync::atomic::Ordering;
 use std::sync::{Arc, Mutex};
 use vcore::Report;
 
+/// the children of every one-symbol script are spread over this many work items
+const SPLIT: usize = 8;
+
 /// scripted-mode failure decisions
 const SCRIPTED: [Decision; 6] = [
     Decision::DontRetry,
@@ -32,6 +35,23 @@ const SCRIPTED: [Decision; 6] = [
     Decision::RetrySame(Some(Cl::One)),
     Decision::IgnoreWrite,
 ];
+
+/// A retry policy that must never be consulted (it sits where the resolution rules say "overridden").
+#[derive(Debug)]
+struct DecoyPolicy(Arc<std::sync::atomic::AtomicBool>);
+struct DecoySession(Arc<std::sync::atomic::AtomicBool>);
+impl scylla::policies::retry::RetryPolicy for DecoyPolicy {
+    fn new_session(&self) -> Box<dyn scylla::policies::retry::RetrySession> {
+        Box::new(DecoySession(self.0.clone()))
+    }
+}
+impl scylla::policies::retry::RetrySession for DecoySession {
+    fn decide_should_retry(&mut self, _: scylla::policies::retry::RequestInfo) -> scylla::policies::retry::RetryDecision {
+        self.0.store(true, Ordering::SeqCst);
+        scylla::policies::retry::RetryDecision::RetryNextTarget(None)
+    }
+    fn reset(&mut self) {}
+}
 
 #[derive(Clone, Copy, PartialEq, Eq, Debug)]
 enum Mode {
@@ -51,6 +71,11 @@ struct Ctx<'a> {
     cap: usize,
     /// connection-less target t answers retrysym::pool_errors()[(t + pool_rot) % len]
     pool_rot: usize,
+    /// 0 = parameters handed to the loop directly; e > 0: resolved by the production `new_for_session_apis` from a
+    /// user-configured statement + execution profile. Bits of e-1: 1 = consistency set on the statement (else only in the
+    /// profile), 2 = retry policy set on the statement (else only in the profile), 4 = Batch instead of Statement,
+    /// 8 = the profile is attached to the statement (the session default profile is a decoy).
+    entry: usize,
 }
 
 impl Ctx<'_> {
@@ -78,7 +103,7 @@ impl Ctx<'_> {
     }
     fn case_json(&self, script: &[usize]) -> Value {
         json!({"leg":"loop","mode": match self.mode { Mode::Real(p) => p.name(), Mode::Scripted => "scripted" },
-               "idempotent": self.idem, "cl0": self.cl0.name(), "no_conn": self.no_conn, "pool_rot": self.pool_rot,
+               "idempotent": self.idem, "cl0": self.cl0.name(), "no_conn": self.no_conn, "pool_rot": self.pool_rot, "entry": self.entry,
                "script": script.iter().map(|&s| self.sym_name(s)).collect::<Vec<_>>()})
     }
 }
@@ -91,6 +116,8 @@ struct Obs {
     result: ExecResult,
     wanted_more: bool,
     log: Vec<ExecEvent>,
+    /// a retry policy that the statement / profile resolution must not have picked was consulted
+    decoy_used: bool,
 }
 
 fn run_case(cx: &Ctx, script: &[usize]) -> Obs {
@@ -101,20 +128,12 @@ fn run_case(cx: &Ctx, script: &[usize]) -> Obs {
         Mode::Scripted => PolicySource::Scripted(script.iter().map(|&s| if s == 0 { Decision::DontRetry } else { SCRIPTED[s - 1] }).collect()),
     };
     let rec = Arc::new(RecordingPolicy::new(src));
-    let cfg = ExecConfig {
-        is_idempotent: cx.idem,
-        consistency: retrysym::cons_of(cx.cl0),
-        retry_policy: rec.clone(),
-        speculative: None,
-        request_timeout: None,
-        history_listener: None,
-        targets: cx.no_conn.iter().map(|n| !n).collect(),
-        pool_errors: {
-            let mut v = retrysym::pool_errors();
-            let n = v.len();
-            v.rotate_left(cx.pool_rot % n);
-            v
-        },
+    let targets: Vec<bool> = cx.no_conn.iter().map(|n| !n).collect();
+    let pool_errors = {
+        let mut v = retrysym::pool_errors();
+        let n = v.len();
+        v.rotate_left(cx.pool_rot % n);
+        v
     };
     let attempts: RefCell<Vec<(usize, Cl)>> = RefCell::new(Vec::new());
     let wanted_more = RefCell::new(false);
@@ -132,10 +151,68 @@ fn run_case(cx: &Ctx, script: &[usize]) -> Obs {
         };
         std::future::ready(out)
     };
-    let result = futures::executor::block_on(scylla::verif::exec::run_request(cfg, log.clone(), attempt));
+    let decoy_used = Arc::new(std::sync::atomic::AtomicBool::new(false));
+    let result = if cx.entry == 0 {
+        let cfg = ExecConfig {
+            is_idempotent: cx.idem,
+            consistency: retrysym::cons_of(cx.cl0),
+            retry_policy: rec.clone(),
+            speculative: None,
+            request_timeout: None,
+            history_listener: None,
+            targets,
+            pool_errors,
+        };
+        futures::executor::block_on(scylla::verif::exec::run_request(cfg, log.clone(), attempt))
+    } else {
+        // building an execution profile needs a tokio context (its default load-balancing policy); one paused
+        // current-thread runtime per worker thread
+        thread_local! {
+            static RT: tokio::runtime::Runtime = tokio::runtime::Builder::new_current_thread().enable_time().start_paused(true).build().expect("runtime");
+        }
+        RT.with(|rt| {
+        let _guard = rt.enter();
+        use scylla::client::execution_profile::ExecutionProfile;
+        let bits = cx.entry - 1;
+        let decoy_cl = if cx.cl0 == Cl::All { Cl::Any } else { Cl::All };
+        let decoy_policy: Arc<dyn scylla::policies::retry::RetryPolicy> = Arc::new(DecoyPolicy(decoy_used.clone()));
+        // the profile that must be used: carries whatever is not set on the statement (and decoys for what is)
+        let profile = ExecutionProfile::builder()
+            .consistency(retrysym::cons_of(if bits & 1 != 0 { decoy_cl } else { cx.cl0 }))
+            .retry_policy(if bits & 2 != 0 { decoy_policy.clone() } else { rec.clone() })
+            .build()
+            .into_handle();
+        let decoy_profile = ExecutionProfile::builder().consistency(retrysym::cons_of(decoy_cl)).retry_policy(decoy_policy.clone()).build().into_handle();
+        let (own, default_profile) = if bits & 8 != 0 { (Some(profile), decoy_profile) } else { (None, profile) };
+        let stmt = if bits & 4 != 0 {
+            let mut b = scylla::statement::batch::Batch::default();
+            b.set_is_idempotent(cx.idem);
+            if bits & 1 != 0 {
+                b.set_consistency(retrysym::cons_of(cx.cl0));
+            }
+            if bits & 2 != 0 {
+                b.set_retry_policy(Some(rec.clone()));
+            }
+            b.set_execution_profile_handle(own);
+            scylla::verif::exec::VerifStatement::Batch(b)
+        } else {
+            let mut q = scylla::statement::unprepared::Statement::new("INSERT INTO ks.t (a) VALUES (1)");
+            q.set_is_idempotent(cx.idem);
+            if bits & 1 != 0 {
+                q.set_consistency(retrysym::cons_of(cx.cl0));
+            }
+            if bits & 2 != 0 {
+                q.set_retry_policy(Some(rec.clone()));
+            }
+            q.set_execution_profile_handle(own);
+            scylla::verif::exec::VerifStatement::Unprepared(q)
+        };
+        rt.block_on(scylla::verif::exec::run_request_for_statement(stmt, default_profile, targets, pool_errors, log.clone(), attempt))
+        })
+    };
     let decisions = rec.log.lock().unwrap().clone();
     let log = log.lock().unwrap().clone();
-    Obs { attempts: attempts.into_inner(), decisions, sessions: rec.sessions.load(Ordering::SeqCst), result, wanted_more: wanted_more.into_inner(), log }
+    Obs { attempts: attempts.into_inner(), decisions, sessions: rec.sessions.load(Ordering::SeqCst), result, wanted_more: wanted_more.into_inner(), log, decoy_used: decoy_used.load(Ordering::SeqCst) }
 }
 
 /// Judge one run. Returns complaints (key, text).
@@ -163,6 +240,9 @@ fn judge(cx: &Ctx, script: &[usize], o: &Obs) -> Vec<(String, String)> {
         if Some(&d.error_dbg) != want_err.as_ref() || Some(d.cl) != want_cl || d.idempotent != cx.idem {
             out.push(("loop:wrong-request-info".into(), format!("decision {k} was asked with (error {}, idempotent {}, consistency {:?}); attempt {k} failed with {:?} at {:?}, idempotent {}", d.error_dbg, d.idempotent, d.cl, want_err, want_cl, cx.idem)));
         }
+    }
+    if o.decoy_used {
+        out.push(("entry:overridden-retry-policy-used".into(), format!("entry {}: a retry policy that is overridden (statement-level beats profile-level, the statement's own profile beats the session default) was consulted", cx.entry)));
     }
     if o.sessions > 1 {
         out.push(("loop:extra-retry-session".into(), format!("{} retry sessions were created for one request without speculative execution", o.sessions)));
@@ -274,10 +354,10 @@ fn visit(cx: &Ctx, acc: &mut Acc, script: &mut Vec<usize>, parent: Option<&Obs>)
     visit_one(cx, acc, script, parent, None)
 }
 
-/// `only`: extend this node only by that symbol (work splitting at the root); the root's own verdict/counters are
-/// kept only when `only == Some(0)`.
-fn visit_one(cx: &Ctx, acc: &mut Acc, script: &mut Vec<usize>, parent: Option<&Obs>, only: Option<usize>) {
-    let root_quiet = matches!(only, Some(s) if s != 0);
+/// `only = (modulus, remainder)`: extend this node only by symbols s with s % modulus == remainder (work splitting at the
+/// root); the root's own verdict/counters are kept only by the remainder-0 item.
+fn visit_one(cx: &Ctx, acc: &mut Acc, script: &mut Vec<usize>, parent: Option<&Obs>, only: Option<(usize, usize)>) {
+    let root_quiet = matches!(only, Some((_, rem)) if rem != 0);
     let o = match vcore::catch(std::panic::AssertUnwindSafe(|| run_case(cx, script))) {
         Ok(o) => o,
         Err(p) => {
@@ -325,7 +405,7 @@ fn visit_one(cx: &Ctx, acc: &mut Acc, script: &mut Vec<usize>, parent: Option<&O
         return;
     }
     for s in 0..cx.n_syms() {
-        if only.is_some_and(|x| x != s) {
+        if only.is_some_and(|(m, rem)| s % m != rem) {
             continue;
         }
         script.push(s);
@@ -343,7 +423,7 @@ fn replay(r: &Report, syms: &[Sym], case: &Value) {
     let cl0 = Cl::ALL.into_iter().find(|c| Some(c.name()) == case["cl0"].as_str()).unwrap_or_else(|| vcore::machinery_error("replay: bad cl0"));
     let no_conn: Vec<bool> = case["no_conn"].as_array().map(|a| a.iter().map(|v| v.as_bool().unwrap_or(false)).collect()).unwrap_or_default();
     let mv = retrysym::MinViolations::default();
-    let cx = Ctx { r, mv: &mv, syms, mode, idem: case["idempotent"].as_bool().unwrap_or(false), cl0, no_conn, cap: 99, pool_rot: case["pool_rot"].as_u64().unwrap_or(0) as usize };
+    let cx = Ctx { r, mv: &mv, syms, mode, idem: case["idempotent"].as_bool().unwrap_or(false), cl0, no_conn, cap: 99, pool_rot: case["pool_rot"].as_u64().unwrap_or(0) as usize, entry: case["entry"].as_u64().unwrap_or(0) as usize };
     let script: Vec<usize> = case["script"]
         .as_array()
         .unwrap_or_else(|| vcore::machinery_error("replay: no script"))
@@ -405,8 +485,19 @@ fn main() {
                         let rots = if mask != 0 && p <= ext_p { n_pool } else { 1 };
                         for rot in 0..rots {
                             for s in 0..n_first {
-                                for s1 in 0..n_first {
-                                    items.push((mode, idem, cl0, no_conn.clone(), rot, s, s1));
+                                for s1 in 0..SPLIT {
+                                    items.push((mode, idem, cl0, no_conn.clone(), rot, 0usize, s, s1));
+                                }
+                            }
+                        }
+                        // the same trees with the parameters resolved from a user-configured Statement / Batch + execution
+                        // profile (16 ways of placing consistency / retry policy / profile): plans of 1..2 targets, all with
+                        // a connection, two consistencies
+                        if (1..=2).contains(&p) && mask == 0 && (cl0 == Cl::Quorum || cl0 == Cl::LocalSerial) {
+                            let n_entry = 1 + if mode == Mode::Scripted { SCRIPTED.len() } else { syms_class.len() };
+                            for entry in 1..=16usize {
+                                for s in 0..n_entry {
+                                    items.push((mode, idem, cl0, no_conn.clone(), 0, entry, s, usize::MAX));
                                 }
                             }
                         }
@@ -419,9 +510,11 @@ fn main() {
     let r_ref = &r;
     let mv = retrysym::MinViolations::default();
     let mv_ref = &mv;
-    vcore::par::for_each(r.args.jobs, 4, items.into_iter(), |(mode, idem, cl0, no_conn, pool_rot, s, s1)| {
+    vcore::par::for_each(r.args.jobs, 1, items.into_iter(), |(mode, idem, cl0, no_conn, pool_rot, entry, s, s1)| {
         let p = no_conn.len();
-        let syms_ref = if p <= ext_p {
+        let syms_ref = if entry > 0 {
+            &syms_class[..]
+        } else if p <= ext_p {
             &syms_ext[..]
         } else if p <= full_p {
             &syms_full[..]
@@ -432,11 +525,15 @@ fn main() {
             Mode::Real(_) => p + 3,
             Mode::Scripted => (p + 3).min(r_ref.tier().pick(5, 6)),
         };
-        let cx = Ctx { r: r_ref, mv: mv_ref, syms: syms_ref, mode, idem, cl0, no_conn, cap, pool_rot };
+        let cx = Ctx { r: r_ref, mv: mv_ref, syms: syms_ref, mode, idem, cl0, no_conn, cap, pool_rot, entry };
         let mut acc = Acc::default();
         // work is split by the first two symbols: the one-symbol run is judged and counted by the item with s1 == 0
         let mut script = vec![s];
-        visit_one(&cx, &mut acc, &mut script, None, Some(s1));
+        if s1 == usize::MAX {
+            visit(&cx, &mut acc, &mut script, None);
+        } else {
+            visit_one(&cx, &mut acc, &mut script, None, Some((SPLIT, s1)));
+        }
         r_ref.eval(acc.runs);
         r_ref.states.fetch_add(acc.runs, Ordering::Relaxed);
         r_ref.transitions.fetch_add(acc.attempts, Ordering::Relaxed);
@@ -453,6 +550,47 @@ fn main() {
         }
         r_ref.counters.max(&format!("max_attempts:{tag}:p{p}"), acc.max_attempts);
     });
+    // ---- long single runs (sizes just beyond round limits): many same-target retries decided by a custom policy, plans
+    // of > 64 / > 1024 targets walked to the end, every second target without a connection
+    {
+        let class_syms = &syms_class[..];
+        let overloaded = 1 + class_syms.iter().position(|s| s.name == "Overloaded").unwrap_or_else(|| vcore::machinery_error("Overloaded missing"));
+        let same = 1 + SCRIPTED.iter().position(|d| *d == Decision::RetrySame(None)).unwrap();
+        let next = 1 + SCRIPTED.iter().position(|d| *d == Decision::RetryNext(None)).unwrap();
+        let mut long_runs = 0u64;
+        for n in [65usize, 1025, 1100] {
+            let all = vec![false; n];
+            let odd: Vec<bool> = (0..n).map(|t| t % 2 == 1).collect();
+            let cases: Vec<(Mode, Vec<bool>, Vec<usize>)> = vec![
+                // n same-target retries on a one-target plan, then success / then stop
+                (Mode::Scripted, vec![false], [vec![same; n], vec![0]].concat()),
+                (Mode::Scripted, vec![false], [vec![same; n], vec![1]].concat()),
+                // walk a plan of n targets to its last target / off its end
+                (Mode::Scripted, all.clone(), [vec![next; n - 1], vec![0]].concat()),
+                (Mode::Scripted, all.clone(), vec![next; n]),
+                (Mode::Scripted, odd.clone(), vec![next; n.div_ceil(2)]),
+                (Mode::Real(Policy::Default), all.clone(), vec![overloaded; n]),
+                (Mode::Real(Policy::Default), odd.clone(), [vec![overloaded; n / 2], vec![0]].concat()),
+            ];
+            for (mode, no_conn, script) in cases {
+                let cx = Ctx { r: &r, mv: &mv, syms: class_syms, mode, idem: true, cl0: Cl::Quorum, no_conn, cap: usize::MAX, pool_rot: 1, entry: 0 };
+                let o = run_case(&cx, &script);
+                long_runs += 1;
+                r.eval(1);
+                r.states.fetch_add(1, Ordering::Relaxed);
+                r.transitions.fetch_add(o.attempts.len() as u64, Ordering::Relaxed);
+                r.counters.max("max_attempts_long_run", o.attempts.len() as u64);
+                if o.wanted_more {
+                    mv.add("loop:sent-more-than-decided", script.len(), format!("long run: the loop asked for attempt {} beyond a script that ends the request (mode {:?}, plan {} targets)", script.len() + 1, mode, cx.no_conn.len()), cx.case_json(&script));
+                }
+                for (k, t) in judge(&cx, &script, &o) {
+                    let short: String = t.chars().take(300).collect();
+                    mv.add(&k, script.len(), format!("long run (n={n}, mode {mode:?}, plan {} targets): {short}", cx.no_conn.len()), cx.case_json(&script));
+                }
+            }
+        }
+        r.counters.add("long_runs", long_runs);
+    }
     mv.flush(&r);
     // vacuity: the real policies must reach plan length + their same-target bound, and every result kind must occur
     for (pol, b) in [(Policy::Default, 2usize), (Policy::Downgrading, 1), (Policy::Fallthrough, 0)] {
